@@ -13,7 +13,7 @@
 (*  - the unsharded counts against the inputs, and for tampered runs that   *)
 (*    any pair of released output shares sums to a zero or one-hot vector.  *)
 (***************************************************************************)
-EXTENDS Codec, Json, IOUtils, FiniteSets
+EXTENDS Codec, Json, IOUtils, FiniteSets, Poplar1Rounds
 Rec == ndJsonDeserialize(IOEnv.TRACEFILE)
 
 SEED == 32
@@ -102,6 +102,13 @@ EventOK(e) ==
             [] e.what = "msg" -> ~Dec(PopMsg(e.leaf, e.round), e.bytes)
             [] OTHER -> FALSE)
     [] e.ev = "aggparam" -> e.ok       \* only refusals are logged: every parameter the driver builds is admissible (1 <= length <= bits <= 2^16)
+    [] e.ev = "variant" ->    \* verify_next on every (state variant, message variant) pair: exactly the matching ones progress
+         LET want == VerifyNextOK([kind |-> e.skind, round |-> e.sround], [kind |-> e.mkind, body |-> e.mbody]) IN
+         /\ e.ok = want
+         /\ e.kind = (IF want THEN VerifyNextKind([kind |-> e.skind, round |-> e.sround]) ELSE "err")
+    [] e.ev = "combine" ->    \* verifier_shares_to_message on every pair of share variants
+         /\ ~e.panic
+         /\ e.ok = CombineOK([kind |-> e.kind0, len |-> e.len0], [kind |-> e.kind1, len |-> e.len1])
     [] e.ev = "mismatch" -> ~e.ok      \* state / message variants that do not belong together are refused
     [] e.ev = "result" ->     \* exact prefix counts
          e.counts = [i \in 1..Len(e.prefixes) |-> Cardinality({k \in 1..Len(e.inputs) : IsPrefixOf(e.prefixes[i], e.inputs[k])})]
@@ -116,8 +123,18 @@ EventOK(e) ==
              isone(i) == BigEq(v(i), <<1>>) \/ BigEq(v(i), BigAdd(PrimeOf(f), <<1>>))
          IN /\ \A i \in 1..e.n : isz(i) \/ isone(i)
             /\ Cardinality({i \in 1..e.n : isone(i)}) <= 1
-    [] e.ev = "attack" ->     \* a report the model says is not well-formed must be rejected under some key
-         \E k \in 1..Len(e.accepted) : ~e.accepted[k]
+    [] e.ev = "attack" ->     \* a constructed malicious (or honest-shaped) report: IDPF programs (y, auth*y + dz), leader's B off by dB
+         LET f == IF e.leaf THEN F255 ELSE F64
+             wf == DevWellFormed(e.y, e.dz, e.dB)
+             v(o, i) == BigAdd(El(o.out0, f, i), El(o.out1, f, i))
+             isval(x, c) == \/ (c = 0 /\ (Norm(x) = <<>> \/ BigEq(x, PrimeOf(f))))
+                            \/ (c = 1 /\ (BigEq(x, <<1>>) \/ BigEq(x, BigAdd(PrimeOf(f), <<1>>))))
+         IN IF wf
+            THEN \* accepted for every verification randomness, contributing exactly y at the on-path candidate
+                 /\ \A k \in 1..Len(e.accepted) : e.accepted[k]
+                 /\ \A k \in 1..Len(e.outs) : \A i \in 1..e.n : isval(v(e.outs[k], i), IF i = e.pos THEN e.y ELSE 0)
+            ELSE \* accepted for at most a 2/p fraction of the randomness: refused under at least one of the independent keys
+                 \E k \in 1..Len(e.accepted) : ~e.accepted[k]
     [] OTHER -> FALSE
 
 Next ==
